@@ -19,6 +19,7 @@ class bag {
   using ygm_container_type = ygm::container::bag_tag;
 
   bag(ygm::comm &comm);
+  bag(const self_type &rhs);
   ~bag();
 
   void async_insert(const value_type &item);
